@@ -2,6 +2,7 @@
 import re
 import hirq, mirq, sigs
 from facts import CheckerError, find_all
+from props import tablesym
 from props.c05 import strip, is_local, mcalls
 
 S = "biscuit_auth::token::authorizer::snapshot::<impl token::authorizer::Authorizer>"
@@ -153,6 +154,12 @@ def check(fb, ctx):
         for f in ("context", "version", "external_key"):
             l = leaves_of_field(fb, tb, agg[0], f)
             ctx.check(any(x == f"arg1.{f}" for x in l), "TRANSLATE", f"Block::translate keeps `{f}`", f"TRANSLATE|{f}", f"depends on {sorted(l)[:4]}", f"{tb['file']}:{tb['line']}")
+    tablesym.rule_translate_rules(fb, ctx)
+    # execution_time: `Some(_)` is also the "Datalog already ran" marker of Authorizer::run; the writer stores None as 0, so the
+    # reader must map 0 back to None - an unconditional Some(0) makes the restored authorizer skip evaluation altogether
+    et = [a for a in find_all(rh["body"], lambda z: z.get("k") == "assign" and strip(z["lhs"]).get("k") == "field" and strip(z["lhs"]).get("name") == "execution_time" and re.search(r"authorizer::Authorizer$", strip(z["lhs"]).get("ety") or ""))]
+    guarded_et = bool(et) and all(bool(find_all(a["rhs"], lambda z: (z.get("k") == "binary" and z.get("op") in ("Gt", "Ne", "Lt", "Ge", "Le", "Eq")) or (z.get("k") == "mcall" and z.get("name") in ("is_zero",)))) and bool(find_all(a["rhs"], lambda z: (z.get("k") == "mcall" and z.get("name") in ("filter", "then", "then_some")) or z.get("k") in ("if", "match"))) for a in et)
+    ctx.check(guarded_et, "READER", "from_snapshot: execution_time 0 is restored as None (not yet evaluated)", "READER|execution_time|zero-is-none", "authorizer.execution_time is assigned without a zero test: a snapshot taken before the first run restores as Some(0), Authorizer::run returns early and rules are never evaluated", rwhere)
     # ---- BUILDER::from_snapshot refusals
     bb = fb.body(AB + "::from_snapshot")
     bh = fb.hir_of(bb)
